@@ -23,6 +23,8 @@ func checkC04(c *Ctx) {
 	c.checkHistoryReads()
 	c.checkDeleteList()
 	c.checkDeletionLog()
+	c.checkGetOptsAgreement()
+	c.checkClipExact()
 }
 
 func (c *Ctx) checkHistoryReads() {
